@@ -5,6 +5,7 @@ WORDS = ['password', 'dragon', 'monkey', 'love', 'pass', 'word', 'super', 'man',
          'summer', 'winter', 'hello', 'world', 'cat', 'dog', 'a', 'qz', 'sunshine', 'football', 'base', 'ball', 'star', 'wars']
 CYR = ['пароль', 'любовь', 'привет', 'кот', 'солнце', 'москва']
 GRK = ['κωδικος', 'αγαπη', 'ηλιος']
+CASELESS = ['中文', '密码', '中文密码', 'パスワード', 'ไทย', 'שלום', 'مرحبا', '한국']        # letters without case
 LAT1 = ['señor', 'über', 'café', 'garçon', 'niño', 'été', 'ärger']
 MULTI = ['superman', 'basketball', 'starwars', 'passwordpassword', 'bluehouse', 'hellokitty', 'loveyou', 'testtest', 'summerlove']
 DIGITS = ['1', '12', '123', '1234', '12345', '123456', '007', '00', '42', '69', '2580', '99', '8', '111111', '31337']
@@ -36,6 +37,8 @@ def word(rng, classes):
         pool += GRK * 3
     if 'lat1' in classes:
         pool += LAT1 * 3
+    if 'caseless' in classes:
+        pool += CASELESS * 2
     return cap(rng, rng.choice(pool))
 
 def password(rng, classes=('ascii',), allow_ew=False, max_parts=4):
@@ -73,7 +76,7 @@ def password(rng, classes=('ascii',), allow_ew=False, max_parts=4):
     pw = ''.join(out)
     return pw if pw.strip() != '' or pw else 'x'
 
-ENCODINGS = {'utf-8': ('ascii', 'cyr', 'grk', 'lat1', 'nonbmp'), 'latin-1': ('ascii', 'lat1'), 'cp1251': ('ascii', 'cyr'),
+ENCODINGS = {'utf-8': ('ascii', 'cyr', 'grk', 'lat1', 'nonbmp', 'caseless'), 'latin-1': ('ascii', 'lat1'), 'cp1251': ('ascii', 'cyr'),
              'cp1252': ('ascii', 'lat1'), 'ascii': ('ascii',), 'iso-8859-7': ('ascii', 'grk')}
 
 def encodable(s, enc):
